@@ -88,12 +88,13 @@ package didstore
 //@   prop C10
 //@   pure
 //@   ensures result == (len(document.Controller) == 0 && len(document.CapabilityInvocation) == 0)
+// The document of an event is the one it carries, else the one stored under ITS payload hash.
 //@ func readDocumentFromEvent
-//@   trusted
-//@   benign
-//@ func hash.ParseHex
-//@   trusted
-//@   benign
+//@   prop C10
+//@   assume-benign
+//@   ensures [the-events-own-document-else-the-stored-one-by-its-payload-hash] (e.document != nil ==> isNilIface(result.1) && same(result.0, *e.document))
+//@        && (e.document == nil ==> did(call readDocument #1) && arg(call readDocument #1, 0) == tx && same(arg(call readDocument #1, 1), e.PayloadHash)
+//@             && same(result.0, ret(call readDocument #1).0) && result.1 == ret(call readDocument #1).1)
 //@ func sort.Strings
 //@   trusted
 //@   modifies args
@@ -226,12 +227,21 @@ package didstore
 //@   ensures [deactivated-only-when-allowed] result && metadata.Deactivated ==> resolveMetadata != nil && resolveMetadata.AllowDeactivated
 //@   ensures [not-from-the-future] result && resolveMetadata != nil && resolveMetadata.ResolveTime != nil ==> !metadata.Updated.After(*resolveMetadata.ResolveTime) && !metadata.Created.After(*resolveMetadata.ResolveTime)
 
+// A version's metadata / document is what the metadata / document shelf of THIS transaction holds under the reference /
+// hash asked for; an empty or missing entry is an error, never an empty value.
 //@ func readMetadata
-//@   trusted
-//@   benign
+//@   prop C10
+//@   assume-benign
+//@   ensures [read-from-the-metadata-shelf-by-reference] isNilIface(result.1) ==> did(call (go-stoabs.Reader).Get #1) && arg(call (go-stoabs.Reader).Get #1, 0) == ret(call (go-stoabs.ReadTx).GetShelfReader #1)
+//@        && arg(call (go-stoabs.ReadTx).GetShelfReader #1, 0) == tx && arg(call (go-stoabs.ReadTx).GetShelfReader #1, 1) == metadataShelf
+//@        && len(ret(call (go-stoabs.Reader).Get #1).0) > 0 && isNilIface(ret(call json.Unmarshal #1)) && arg(call json.Unmarshal #1, 0) == ret(call (go-stoabs.Reader).Get #1).0
 //@ func readDocument
-//@   trusted
-//@   benign
+//@   prop C10
+//@   assume-benign
+//@   ensures [read-from-the-document-shelf-by-hash] isNilIface(result.1) ==> did(call (go-stoabs.Reader).Get #1) && arg(call (go-stoabs.Reader).Get #1, 0) == ret(call (go-stoabs.ReadTx).GetShelfReader #1)
+//@        && arg(call (go-stoabs.ReadTx).GetShelfReader #1, 0) == tx && arg(call (go-stoabs.ReadTx).GetShelfReader #1, 1) == documentShelf
+//@        && same(arg(call go-stoabs.NewHashKey #1, 0), documentHash) && arg(call (go-stoabs.Reader).Get #1, 1) == any(ret(call go-stoabs.NewHashKey #1))
+//@        && len(ret(call (go-stoabs.Reader).Get #1).0) > 0 && isNilIface(ret(call json.Unmarshal #1)) && arg(call json.Unmarshal #1, 0) == ret(call (go-stoabs.Reader).Get #1).0
 //@ func (documentMetadata).asVDRMetadata
 //@   trusted
 //@   benign
